@@ -394,6 +394,7 @@ func (r *c13Run) clientWrite(b []byte) {
 	r.mu.Lock()
 	r.cChunks = append(r.cChunks, append([]byte(nil), b...))
 	r.mu.Unlock()
+	c13JWrite(r.id, 'c', b)
 	r.cw.Write(b)
 }
 func (r *c13Run) serverWrite(b []byte) {
@@ -403,6 +404,7 @@ func (r *c13Run) serverWrite(b []byte) {
 	r.mu.Lock()
 	r.sChunks = append(r.sChunks, append([]byte(nil), b...))
 	r.mu.Unlock()
+	c13JWrite(r.id, 's', b)
 	r.sw.Write(b)
 }
 
@@ -462,21 +464,33 @@ func c13RunOne(seed int64, idx int, perturbed bool) (*c13Run, []map[string]strin
 			i, lang, t.outcome != "cancel"))
 		t.cfg = c13Line("CFG", fmt.Sprintf(`{"verif":%d, "quiet":false,"binary":false,"directory":false,"overwrite":false,"timeout":%d,"newline":"\n","protocol":2,"bufsize":10485760}`, i, tmo))
 		if t.outcome == "badact" {
-			switch rng.Intn(3) {
+			switch rng.Intn(6) {
 			case 0:
 				t.act = []byte("#ACT:@@notbase64@@\n")
 			case 1:
 				t.act = []byte("#ACT:" + base64.StdEncoding.EncodeToString([]byte("not zlib at all")) + "\n")
+			case 2: // what a user types into a client without trzsz: the colon first (":wq")
+				t.act = [][]byte{[]byte(":wq\n"), []byte(":\n"), []byte("::x\n"), []byte(":q!\n")}[rng.Intn(4)]
+				r.count("malformed:act_colon_first")
+			case 3: // colon elsewhere, other type, type without colon
+				t.act = [][]byte{[]byte("a:b\n"), []byte("#:x\n"), []byte("#ACT\n"), []byte("#CFG:abcd\n"), []byte("#\n")}[rng.Intn(5)]
+				r.count("malformed:act_other_shape")
 			default:
 				t.act = append(c13Letters(rng, 1+rng.Intn(6), c13Lower), '\n')
 			}
 		}
 		if t.outcome == "badcfg" {
-			switch rng.Intn(3) {
+			switch rng.Intn(5) {
 			case 0:
 				t.cfg = []byte("#CFG:%%%%\n")
 			case 1:
 				t.cfg = c13Line("CFG", `{"timeout":"not a number"`)
+			case 2:
+				t.cfg = [][]byte{[]byte(":%%\n"), []byte(":\n"), []byte("::\n")}[rng.Intn(3)]
+				r.count("malformed:cfg_colon_first")
+			case 3:
+				t.cfg = [][]byte{[]byte("A:B\n"), []byte("#:X\n"), []byte("#CFG\n"), []byte("#ACT:ABCD\n")}[rng.Intn(4)]
+				r.count("malformed:cfg_other_shape")
 			default:
 				t.cfg = append(c13Letters(rng, 1+rng.Intn(6), c13Upper), '\n')
 			}
@@ -768,16 +782,28 @@ func c13RunAll(c *ctx, perturbed bool, n int) {
 	os.Unsetenv("TMUX")
 	seed := c.rng.Int63n(1 << 40)
 	par := 48
+	if c13Serial() {
+		par = 1
+	}
 	sem := make(chan struct{}, par)
 	var mu sync.Mutex
 	var wg sync.WaitGroup
 	for i := 0; i < n; i++ {
+		rid := fmt.Sprintf("s%d-r%d", seed, i)
+		if perturbed {
+			rid += "-perturbed"
+		}
+		if !c13Only(rid) {
+			continue
+		}
 		wg.Add(1)
 		sem <- struct{}{}
 		go func(i int) {
 			defer wg.Done()
 			defer func() { <-sem }()
+			c13JBegin(rid)
 			r, viol := c13RunOne(seed, i, perturbed)
+			c13JEnd(rid)
 			mu.Lock()
 			defer mu.Unlock()
 			pre := "plain:"
@@ -814,7 +840,29 @@ func c13RunAll(c *ctx, perturbed bool, n int) {
 
 func genC13RelayInner(c *ctx) {
 	c.sample = []string{}
-	if os.Getenv("C13_SCHED") == "1" { // pass 3: schedules found on the model, replayed (c13_reset.go)
+	os.Unsetenv("TMUX")
+	switch os.Getenv("C13_MODE") { // the unperturbed families on the plain build, one child each
+	case "seq": // canonical schedules vs the model
+		c13VlDump = nil
+		base := c.rng.Int63n(1 << 40)
+		for i := c.pick(60, 400); i > 0; i-- {
+			c13Sequential(c, base, i)
+		}
+		return
+	case "runs": // scripted runs judged by the oracle
+		c13VlDump = nil
+		c13RunAll(c, false, c.pick(400, 4000))
+		return
+	case "late": // the reset guard, direct scenario: a stale reset request behind a slow server (c13_reset.go)
+		for k, n := 0, c.pick(8, 48); k < n; k++ {
+			c13LateResetPlain(c, k, k%4, (k/4)%2 == 1, 5*time.Millisecond)
+		}
+		return
+	case "entry": // the client answers the trigger at once, GOMAXPROCS 2..16 (c13_proc.go)
+		c13EntryAll(c)
+		return
+	}
+	if os.Getenv("C13_SCHED") == "1" { // schedules found on the model, replayed (c13_reset.go)
 		if c13VlDump == nil || c13VlSchedule == nil || os.Getenv("VERIF_VL") != "1" {
 			panic("c13: C13_SCHED=1 needs the logging overlay build and VERIF_VL=1")
 		}
@@ -842,18 +890,6 @@ func genC13RelayInner(c *ctx) {
 
 func genC13Relay(c *ctx) {
 	os.Unsetenv("TMUX")
-	for i := c.pick(60, 400); i > 0; i-- {
-		c13Sequential(c, i)
-	}
-	c13RunAll(c, false, c.pick(400, 4000))
-	// the reset guard, direct scenario: a stale reset request behind a slow server (c13_reset.go)
-	for k, n := 0, c.pick(8, 48); k < n; k++ {
-		c13LateResetPlain(c, k, k%4, (k/4)%2 == 1, 5*time.Millisecond)
-	}
-	if c.sample == nil { // no model evaluations in this group: describe the runs instead
-		c.sample = []string{"scripted relay runs judged by the direct conservation oracle (see input_distribution: plain:* and perturbed:*)"}
-	}
-	// ---- overlay build of this harness, schedule perturbation ----
 	exe, err := os.Executable()
 	if err != nil {
 		panic(err)
@@ -877,6 +913,7 @@ func genC13Relay(c *ctx) {
 		panic(err)
 	}
 	defer os.RemoveAll(tmp)
+	// ---- overlay build of this harness ----
 	run := func(dir string, env []string, name string, args ...string) {
 		cmd := exec.Command(name, args...)
 		cmd.Dir = dir
@@ -901,52 +938,29 @@ func genC13Relay(c *ctx) {
 			}
 		}
 	}
-	// pass 1: schedule perturbation only (yield/sleep points, no logging, no extra
-	// synchronisation); pass 2: perturbation + trace logging, every run replayed on the model
-	// pass 3: the schedules the model needs the reset guard for, replayed through the scripted
-	// scheduler of the overlay (c13_reset.go)
+	// every relay runs in a child process (c13_proc.go):
+	//   plain-*    the unperturbed families on the plain build, one child each (canonical schedules
+	//              vs the model, scripted runs, stale reset behind a slow server, immediate answer
+	//              to the trigger)
+	//   perturbed  overlay build: seeded yield/sleep points, no logging, no extra synchronisation
+	//   traced     overlay build + trace logging, every run replayed on the model
+	//   sched      overlay build: the schedules found on the model, replayed through the scripted
+	//              scheduler (c13_reset.go)
+	ov := filepath.Join(tmp, "corr_overlay")
 	drv := "C13_DRIVER=" + filepath.Join(filepath.Dir(goDir), "ocaml", "driver")
-	for pass, env := range [][]string{{"C13_PERTURBED=1"}, {"C13_PERTURBED=1", "VERIF_VL=1"}, {"C13_PERTURBED=1", "VERIF_VL=1", "C13_SCHED=1", drv}} {
-		cases, stats := filepath.Join(tmp, fmt.Sprintf("cases%d", pass)), filepath.Join(tmp, fmt.Sprintf("stats%d", pass))
-		vpSeed := c.rng.Int63()
-		// the relay under test may panic (a worker flushing into a channel the readers have
-		// closed): that ends the inner process; it is reported, the other passes still run
-		inner := exec.Command(filepath.Join(tmp, "corr_overlay"), "relay_inner", fmt.Sprint(vpSeed%1000000007), c.tier, cases, stats)
-		inner.Dir = tmp
-		inner.Env = append(append(os.Environ(), env...), fmt.Sprintf("VERIF_VP_SEED=%d", vpSeed), "VERIF_VP_COUNT_FILE="+filepath.Join(tmp, "vpcount"))
-		if out, err := inner.CombinedOutput(); err != nil {
-			txt := string(out)
-			if i := strings.Index(txt, "panic:"); i >= 0 {
-				txt = txt[i:]
-			}
-			if len(txt) > 1500 {
-				txt = txt[:1500]
-			}
-			c.violate(fmt.Sprintf("relay-inner-crash-pass%d", pass+1), "the overlay build of the relay harness died in pass "+fmt.Sprint(pass+1)+" (the relay panicked or the harness failed): "+err.Error(),
-				txt+fmt.Sprintf(" | VERIF_VP_SEED=%d", vpSeed))
-			continue
-		}
-		js, err := os.ReadFile(stats)
-		if err != nil {
-			panic(err)
-		}
-		var st struct {
-			Evaluations  int                 `json:"evaluations"`
-			Nontrivial   int                 `json:"distinct_nontrivial"`
-			Samples      []string            `json:"samples"`
-			Distribution map[string]int      `json:"distribution"`
-			Violations   []map[string]string `json:"violations"`
-		}
-		if err := json.Unmarshal(js, &st); err != nil {
-			panic(err)
-		}
-		pre := ""
-		if pass == 1 {
-			pre = "traced:"
-		}
+	passes := []c13Pass{
+		{"plain-seq", exe, []string{"C13_MODE=seq"}},
+		{"plain-runs", exe, []string{"C13_MODE=runs"}},
+		{"plain-late", exe, []string{"C13_MODE=late"}},
+		{"plain-entry", exe, []string{"C13_MODE=entry"}},
+		{"perturbed", ov, []string{"C13_PERTURBED=1"}},
+		{"traced", ov, []string{"C13_PERTURBED=1", "VERIF_VL=1"}},
+		{"sched", ov, []string{"C13_PERTURBED=1", "VERIF_VL=1", "C13_SCHED=1", drv}},
+	}
+	merge := func(p c13Pass, st *c13ChildStats, cases string, vpSeed int64) {
 		for k, v := range st.Distribution {
-			if strings.HasPrefix(k, "perturbed:") {
-				k = pre + k
+			if p.name == "traced" && strings.HasPrefix(k, "perturbed:") {
+				k = "traced:" + k
 			}
 			if strings.HasPrefix(k, "fn:") {
 				continue // counted again by the emit below
@@ -954,13 +968,17 @@ func genC13Relay(c *ctx) {
 			c.stats[k] += v
 		}
 		for _, v := range st.Violations {
-			c.violate(v["key"], v["what"], v["detail"]+fmt.Sprintf(" | VERIF_VP_SEED=%d", vpSeed))
+			d := v["detail"]
+			if !strings.HasPrefix(p.name, "plain") {
+				d += fmt.Sprintf(" | VERIF_VP_SEED=%d", vpSeed)
+			}
+			c.violate(v["key"], v["what"], d)
 		}
-		if pass < 2 && st.Distribution["vp:points_hit"] == 0 {
+		if (p.name == "perturbed" || p.name == "traced") && st.Distribution["vp:points_hit"] == 0 {
 			c.violate("relay-overlay-inert", "the overlay build executed no perturbation point: schedule perturbation did not run", "")
 		}
-		// the model lines of the inner run become cases of this group; its other executions
-		// (runs judged by the direct oracle only) count as evaluations
+		// the model lines of the child become cases of this group; its other executions (runs
+		// judged by the direct oracle only) count as evaluations
 		lines := 0
 		if b, err := os.ReadFile(cases); err == nil {
 			for _, l := range strings.Split(string(b), "\n") {
@@ -974,12 +992,19 @@ func genC13Relay(c *ctx) {
 		}
 		c.n += st.Evaluations - lines
 		c.nontrivial += st.Nontrivial - lines
-		if pass == 1 {
-			if lines == 0 || st.Distribution["traces_validated_against_impl"] != lines {
-				c.violate("relay-trace-inert", "the logging overlay produced no trace to validate", fmt.Sprintf("%d runs, %d trace lines", st.Distribution["perturbed:runs"], lines))
-			}
-			c.sample = append(c.sample, st.Samples...)
+		if p.name == "traced" && (lines == 0 || st.Distribution["traces_validated_against_impl"] != lines) {
+			c.violate("relay-trace-inert", "the logging overlay produced no trace to validate", fmt.Sprintf("%d runs, %d trace lines", st.Distribution["perturbed:runs"], lines))
 		}
+		if strings.HasPrefix(p.name, "plain") || p.name == "traced" {
+			for _, x := range st.Samples {
+				if len(c.sample) < 8 {
+					c.sample = append(c.sample, x)
+				}
+			}
+		}
+	}
+	for _, p := range passes {
+		c13RunPass(c, p, tmp, merge)
 	}
 }
 
@@ -992,8 +1017,14 @@ func genC13Relay(c *ctx) {
 // observation (they are oracle choices of the model), everything else -- what is eaten,
 // what is parked, the order of the flush, the final status -- is predicted by the model and
 // compared with the bytes the two writers received.
-func c13Sequential(c *ctx, idx int) {
-	rng := c.rng
+func c13Sequential(c *ctx, base int64, idx int) {
+	rid := fmt.Sprintf("seq-%d", idx)
+	if !c13Only(rid) {
+		return
+	}
+	c13JBegin(rid)
+	defer c13JEnd(rid)
+	rng := rand.New(rand.NewSource(base*1000003 + int64(idx)))
 	cInR, cInW := io.Pipe()
 	sOutR, sOutW := io.Pipe()
 	cOut, sIn := newC13Sink(), newC13Sink()
@@ -1001,13 +1032,19 @@ func c13Sequential(c *ctx, idx int) {
 	var cs, ss [][]byte
 	var labels []string
 	okAll := true
+	patience := func() time.Duration { // once out of step the rest is only fed, not waited for
+		if okAll {
+			return 2 * time.Second
+		}
+		return 20 * time.Millisecond
+	}
 	waitLen := func(s *c13Sink, n int) {
-		if !s.waitFor(func(b []byte) bool { return len(b) >= n }, 2*time.Second) {
+		if !s.waitFor(func(b []byte) bool { return len(b) >= n }, patience()) {
 			okAll = false
 		}
 	}
-	cw := func(b []byte) { cs = append(cs, b); cInW.Write(b) }
-	sw := func(b []byte) { ss = append(ss, b); sOutW.Write(b) }
+	cw := func(b []byte) { cs = append(cs, b); c13JWrite(rid, 'c', b); cInW.Write(b) }
+	sw := func(b []byte) { ss = append(ss, b); c13JWrite(rid, 's', b); sOutW.Write(b) }
 	settle := func() { time.Sleep(4 * time.Millisecond) }
 	park := func(side string) []string {
 		return []string{side + "R", side + "L", side + "K", side + "V", side + "A", side + "P"}
@@ -1045,7 +1082,7 @@ func c13Sequential(c *ctx, idx int) {
 	kBase := len(k0)
 	raw := map[string]bool{string(act): true}
 	insS := func(n int) [][]byte { // the first n relay-written lines on the server side
-		sIn.waitFor(func(b []byte) bool { _, t := c13Strip(b, []string{"ACT", "FAIL"}, raw); return len(t) >= n }, 2*time.Second)
+		sIn.waitFor(func(b []byte) bool { _, t := c13Strip(b, []string{"ACT", "FAIL"}, raw); return len(t) >= n }, patience())
 		_, t := c13Strip(sIn.snapshot(), []string{"ACT", "FAIL"}, raw)
 		var out [][]byte
 		for _, k := range t {
@@ -1060,7 +1097,7 @@ func c13Sequential(c *ctx, idx int) {
 		return out
 	}
 	insK := func(n int, rawK map[string]bool) [][]byte {
-		cOut.waitFor(func(b []byte) bool { _, t := c13Strip(b[kBase:], []string{"CFG", "FAIL"}, rawK); return len(t) >= n }, 2*time.Second)
+		cOut.waitFor(func(b []byte) bool { _, t := c13Strip(b[kBase:], []string{"CFG", "FAIL"}, rawK); return len(t) >= n }, patience())
 		_, t := c13Strip(cOut.snapshot()[kBase:], []string{"CFG", "FAIL"}, rawK)
 		var out [][]byte
 		for _, k := range t {
